@@ -388,6 +388,13 @@ Section Charts.
         | Some cd => ChartOk (chart_object_name start end_) cd
         end
     end.
+  (* the request context (live, or done once `done_after` objects have been
+     opened: Timeout middleware, client disconnect).  The file-system store
+     ignores it and handleChart never consults it: the request is served in
+     full whatever the context does. *)
+  Definition handle_chart_ctx (done_after : option nat) (cfg : config) (read : Z -> read_result)
+      (start end_ : Z) : chart_result :=
+    handle_chart cfg read start end_.
 End Charts.
 
 (* readMergedReports on the merge bucket: day -> stored object, if any *)
